@@ -23,6 +23,8 @@ def check(run):
     quick = run.tier == "quick"
     run.regenerate()
     run.lean_props(common.modules_for("C13"))
+    from .. import glue_modes
+    glue_modes.corr(run, quick)   # Lean model of Modes (constructor, layout, dispatch, conj pairing, product terms, copies) vs the real class
     rng = run.rng
     Rs = [helpers.random_rotor(rng) for _ in range(3)] + [(1.0, 0.0, 0.0, 0.0), (0.0, 0.6, 0.8, 0.0)]
 
